@@ -312,11 +312,118 @@ fn parser_layer(ctx: &Ctx, ln: u32, tier: Tier) {
     }
 }
 
+/// Raw reads through `Reader::stream()` between events: the bytes read and every position reported
+/// afterwards must not depend on the source kind or the chunking.
+fn stream_layer(ctx: &Ctx, ln: u32, tier: Tier) {
+    use std::io::BufRead;
+    use tokio::io::AsyncReadExt;
+    let max = tier.pick(3, 4);
+    let sp = raw("S.binary_stream", SIGMA_M, max);
+    ctx.layer("S.binary_stream", ln, sp.total, json!({"document": "<a>{raw}<b/>t</a>", "raw": "every string over the markup alphabet", "max_len": max, "accessors": ["read_exact", "fill_buf+consume", "async read_exact"], "pieces": [1, 2, 3, 7]}), |i, acc| {
+        let mut raw_bytes = Vec::new();
+        sp.get(i, &mut raw_bytes);
+        let k = raw_bytes.len();
+        let mut doc = b"<a>".to_vec();
+        doc.extend_from_slice(&raw_bytes);
+        doc.extend_from_slice(b"<b/>t</a>");
+        // reference: the borrowing reader
+        let reference = guarded_mut(|| {
+            let mut r = quick_xml::Reader::from_reader(&doc[..]);
+            let mut t: Vec<(String, u64)> = Vec::new();
+            t.push((Ev::from_result(&r.read_event()).show(), r.buffer_position()));
+            let mut bin = vec![0u8; k];
+            let ok = std::io::Read::read_exact(&mut r.stream(), &mut bin).is_ok();
+            t.push((format!("raw {:?} {}", lossy(&bin), ok), r.buffer_position()));
+            for _ in 0..6 {
+                let e = Ev::from_result(&r.read_event());
+                let eof = e == Ev::Eof;
+                t.push((e.show(), r.buffer_position()));
+                if eof {
+                    break;
+                }
+            }
+            t
+        });
+        let Ok(reference) = reference else {
+            acc.violation((ln, i), format!("document {:?}: the borrowing reader panicked around stream()", lossy(&doc)), json!({"input": bytes_json(&doc)}));
+            return;
+        };
+        for piece in [1usize, 2, 3, 7] {
+            for mode in 0..3 {
+                let script = Script::pieces(piece);
+                let got = guarded_mut(|| {
+                    let mut r = quick_xml::Reader::from_reader(Source::new(&doc, &script));
+                    let mut buf = Vec::new();
+                    let mut t: Vec<(String, u64)> = Vec::new();
+                    let horizon = doc.len() + 16;
+                    let first = if mode == 2 { block_on(r.read_event_into_async(&mut buf), horizon).map(|x| Ev::from_result(&x)) } else { Some(Ev::from_result(&r.read_event_into(&mut buf))) };
+                    t.push((first.map_or("STUCK".into(), |e| e.show()), r.buffer_position()));
+                    let mut bin = vec![0u8; k];
+                    let ok = match mode {
+                        0 => std::io::Read::read_exact(&mut r.stream(), &mut bin).is_ok(),
+                        1 => {
+                            // BufRead access: take what is offered, piece by piece
+                            let mut filled = 0;
+                            let mut ok = true;
+                            while filled < k {
+                                let mut st = r.stream();
+                                let avail = match st.fill_buf() {
+                                    Ok(a) if !a.is_empty() => a,
+                                    _ => {
+                                        ok = false;
+                                        break;
+                                    }
+                                };
+                                let n = avail.len().min(k - filled);
+                                bin[filled..filled + n].copy_from_slice(&avail[..n]);
+                                st.consume(n);
+                                filled += n;
+                            }
+                            ok
+                        }
+                        _ => {
+                            let mut st = r.stream();
+                            let fut = AsyncReadExt::read_exact(&mut st, &mut bin);
+                            matches!(block_on(fut, 4 * horizon), Some(Ok(_)))
+                        }
+                    };
+                    t.push((format!("raw {:?} {}", lossy(&bin), ok), r.buffer_position()));
+                    for _ in 0..6 {
+                        buf.clear();
+                        let e = if mode == 2 { block_on(r.read_event_into_async(&mut buf), horizon).map(|x| Ev::from_result(&x)) } else { Some(Ev::from_result(&r.read_event_into(&mut buf))) };
+                        let Some(e) = e else {
+                            t.push(("STUCK".into(), 0));
+                            break;
+                        };
+                        let eof = e == Ev::Eof;
+                        t.push((e.show(), r.buffer_position()));
+                        if eof {
+                            break;
+                        }
+                    }
+                    t
+                });
+                acc.evaluations += 1;
+                acc.traces += 1;
+                acc.transitions += reference.len() as u64;
+                match got {
+                    Ok(t) if t == reference => acc.nt_count += 1,
+                    other => acc.violation(
+                        (ln, i),
+                        format!("document {:?}, pieces of {}, {}: Start, stream() raw read of {} bytes, then events: {:?}; the borrowing reader gives {:?}", lossy(&doc), piece, ["read_exact", "fill_buf+consume", "async read_exact"][mode], k, other, reference),
+                        json!({"input": bytes_json(&doc), "kind": "stream", "piece": piece, "mode": mode}),
+                    ),
+                }
+            }
+        }
+    });
+}
+
 pub fn run(ctx: &Ctx) {
     ctx.set_rule(
         "inputs: layer A (all strings over the markup alphabet), C (atom sequences), D (construct contexts, with BOM \
          variants), E (sample documents). schedules: every way to cut short inputs into consecutive non-empty pieces, \
-         every <=k-cut set for longer ones, uniform piece sizes; sources: buffered (read_event_into over a scripted BufRead) \
+         every <=k-cut set for longer ones, uniform piece sizes; also raw reads through Reader::stream() between events (read_exact, fill_buf+consume, async read_exact); sources: buffered (read_event_into over a scripted BufRead) \
          and async (read_event_into_async over a scripted AsyncBufRead polled by hand), the latter also with every \
          placement of up to k Poll::Pending answers. Oracle: the trace of the borrowing reader (events, errors, \
          buffer_position and error_position after every call, two extra calls after Eof), under four configurations (neutral, default, all switches on, neutral + text trimming). non-trivial = some cut falls strictly inside a markup construct (spans from the \
@@ -346,6 +453,8 @@ pub fn run(ctx: &Ctx) {
     sweep(ctx, ln, &context("Init.bom", &[b"", b"\xEF\xBB", b"\xEF\xBB\xBF", b"\xEF\xBB\xBF\xEF\xBB\xBF"], b"<?xml >a", t.pick(4, 5), &[b""], false), &cfgs, &b, 64);
     ln += 1;
     parser_layer(ctx, ln, t);
+    ln += 1;
+    stream_layer(ctx, ln, t);
     ln += 1;
 
     // E: corpus with uniform piece sizes and every single cut in a window around each markup start
@@ -382,6 +491,9 @@ pub fn run(ctx: &Ctx) {
 }
 
 pub fn replay(case: &Value) -> Result<(), String> {
+    if case.get("kind").and_then(|k| k.as_str()) == Some("stream") {
+        return Err("re-run the S.binary_stream layer (./check C02 quick) to reproduce a stream() case".into());
+    }
     if let Some(p) = case.get("parser").and_then(|p| p.as_str()) {
         let s = bytes_from_json(&case["input"]);
         println!("parser {} input {:?}", p, lossy(&s));
